@@ -622,7 +622,7 @@ def r5_single_evaluator(ctx: Ctx) -> None:
     first_seen: dict[str, int] = {}
     op_arm: dict[str, int] = {}
     for i, (test, body) in enumerate(arms):
-        emits_op = any(unparse(c) == "s.emit(TokenType.OPERATOR)" for b in body for c in calls_in(b))
+        emits_op = any(call_name(c) == "s.emit" and c.args and "TokenType.OPERATOR" in unparse(c.args[0]) for b in body for c in calls_in(b))
         for c in calls_in(test):
             if call_name(c) == "s.accept" and c.args:
                 chars = const_str(c.args[0])
@@ -640,6 +640,23 @@ def r5_single_evaluator(ctx: Ctx) -> None:
                     first_seen.setdefault(pre, i)
                 if emits_op:
                     op_arm.setdefault(pre, i)
+    called = {id(c.func) for c in calls_in(li.node)}
+    for n_ in ast.walk(li.node):
+        if isinstance(n_, ast.Attribute) and n_.attr in ("accept", "accept_prefix", "emit") and id(n_) not in called:
+            raise AnalysisError(f"lex_initial: `{unparse(n_)}` passed around as a value; token tests not modelled")
+    for test, body in arms:
+        for c in calls_in(test):
+            if call_name(c) not in ("s.accept", "s.accept_prefix", "s.peek", "s.next"):
+                raise AnalysisError(f"lex_initial: token test through `{unparse(c)[:50]}`; not modelled")
+        for b in body:
+            for c in calls_in(b):
+                cn = call_name(c) or ""
+                if not (cn.startswith("s.") or cn.startswith("lex_") or cn in ("accept_opcode", "ScannerException")):
+                    raise AnalysisError(f"lex_initial: arm body calls `{unparse(c)[:50]}`; not modelled")
+    in_chain = {id(c) for test, body in arms for b in [test] + body for c in calls_in(b)}
+    for c in calls_in(li.node):
+        if id(c) not in in_chain and (unparse(c) == "s.emit(TokenType.OPERATOR)" or call_name(c) in ("s.accept", "s.accept_prefix")):
+            raise AnalysisError(f"lex_initial: `{unparse(c)[:50]}` outside the token if-chain; layout not modelled")
     for op in sorted(STATEMENT_OPERATORS):
         ctx.count("statement_operators")
         if not ctx.check(op in op_arm, f"lex_initial:emits {op}", "the statement-context lexer produces this operator as one token (the operand context does; "
